@@ -76,9 +76,10 @@ Fn_ferr == <<102, 101, 114, 114>>
 Fn_g1 == <<103, 49>>      Fn_g2 == <<103, 50>>
 Fn_gcnt == <<103, 99, 110, 116>>
 Fn_gerr == <<103, 101, 114, 114>>
+Fn_gid == <<103, 105, 100>>     \* returns the list it was given, the very same one (the harness does not copy it)
 Fn_fprobe == <<102, 112, 114, 111, 98, 101>>   \* identity; the harness uses its calls to look at the document DURING a retrieval (C04)
 FFNames == {Fn_f1, Fn_f2, Fn_f3, Fn_fid, Fn_fodd, Fn_ferr, Fn_fprobe}
-AFNames == {Fn_g1, Fn_g2, Fn_gcnt, Fn_gerr}
+AFNames == {Fn_g1, Fn_g2, Fn_gcnt, Fn_gerr, Fn_gid}
 OkV(v) == [ok |-> TRUE, v |-> v]
 FailV == [ok |-> FALSE, v |-> Null]
 ApplyFF(n, v) ==
@@ -89,6 +90,7 @@ ApplyFF(n, v) ==
 ApplyAF(n, vs) ==
   CASE n = Fn_gerr -> FailV
     [] n = Fn_gcnt -> OkV(Num(1000 * Len(vs)))
+    [] n = Fn_gid -> OkV(Arr(vs))
     [] OTHER -> OkV(Arr(<<Str(n)>> \o vs))
 
 \* ------------------------------------------------------------------ regular expressions (small fixed table)
